@@ -202,9 +202,13 @@ pub(crate) fn create_case_from(prop: &str, src: ParserType, fmt: ParserType, esc
     }
 }
 
+/// general category `Other` (control, format, private use, surrogate, UNASSIGNED) by the tables of the regex crate --
+/// a source that is independent of the code: until fix fbc0b98 the code and this function both asked `unicode_categories`
+/// 0.1.1, whose tables end at Unicode 8 and hold no unassigned code points (hunt round, C11)
 pub(crate) fn unicode_other(c: char) -> bool {
-    use unicode_categories::UnicodeCategories;
-    c.is_other()
+    static OTHER: std::sync::OnceLock<regex::Regex> = std::sync::OnceLock::new();
+    let mut buf = [0u8; 4];
+    OTHER.get_or_init(|| regex::Regex::new(r"\p{C}").unwrap()).is_match(c.encode_utf8(&mut buf))
 }
 
 pub(crate) const LINE_ALPHABET: [&[u8]; 20] = [
